@@ -25,6 +25,7 @@ import (
 	"github.com/metal-toolbox/audito-maldito/internal/health"
 	"github.com/metal-toolbox/audito-maldito/internal/verif/mc"
 	"github.com/metal-toolbox/audito-maldito/internal/verif/sched"
+	"github.com/metal-toolbox/audito-maldito/internal/verif/vsync"
 )
 
 var names = []string{"a", "b", "c"}
@@ -270,6 +271,10 @@ type hprog struct {
 	Name    string
 	Prefix  []hop
 	Threads [][]hop // a hop with K=="get" is a status request
+	// ReleasePoints: lock releases are scheduling points too, so that a handler which publishes something after
+	// it has let go of the lock (a cached response, a flag) can be overtaken there by a registration or a
+	// ready-mark. Multiplies the schedule space: only the two-thread programs.
+	ReleasePoints bool
 }
 
 type hinst struct {
@@ -350,6 +355,13 @@ func hprograms() []*hprog {
 			Prefix: []hop{add("a"), add("b")}, Threads: [][]hop{{rdy("a")}, {rdy("b")}, {g, g}}},
 		{Name: "H3 a ready: re-register a;ready(a) || get;get || get",
 			Prefix: []hop{add("a"), rdy("a"), add("b"), rdy("b")}, Threads: [][]hop{{add("a"), rdy("a")}, {g, g}, {g}}},
+		// (every program ends with a quiet probe after all threads have finished: observe())
+		{Name: "H4 a ready: add(b) || get (release points)", ReleasePoints: true,
+			Prefix: []hop{add("a"), rdy("a")}, Threads: [][]hop{{add("b")}, {g}}},
+		{Name: "H5 a ready, b registered: ready(b) || get (release points)", ReleasePoints: true,
+			Prefix: []hop{add("a"), rdy("a"), add("b")}, Threads: [][]hop{{rdy("b")}, {g}}},
+		{Name: "H6 a ready: add(b);ready(b) || get;get (release points)", ReleasePoints: true,
+			Prefix: []hop{add("a"), rdy("a")}, Threads: [][]hop{{add("b"), rdy("b")}, {g, g}}},
 	}
 }
 
@@ -360,9 +372,11 @@ type hreplay struct {
 }
 
 func searchConcurrent(run *mc.Run, cov *mc.Coverage) {
+	defer func() { vsync.YieldAfterUnlock = false }()
 	var per []map[string]any
 	for _, p := range hprograms() {
 		allowed := p.sequential()
+		vsync.YieldAfterUnlock = p.ReleasePoints
 		sp := &sched.Program{Name: p.Name}
 		sp.Setup = func() any { return p.setup() }
 		for t := range p.Threads {
@@ -571,7 +585,9 @@ func runC18(t *testing.T, run *mc.Run) int {
 						sp.Threads = append(sp.Threads, func(inst any) { inst.(*hinst).runThread(t, p.Threads[t]) })
 					}
 					iterChoice = func(n int) int { return sched.Choose(n, "iter") }
+					vsync.YieldAfterUnlock = p.ReleasePoints
 					x := sched.Replay(sp, rp.Choices)
+					vsync.YieldAfterUnlock = false
 					fmt.Print(x.Outcome)
 					if !p.sequential()[x.Outcome] {
 						fmt.Printf("VIOLATION property=C18 replay=%s\n", run.Replay)
